@@ -91,6 +91,10 @@ EXPLANATION += (
     " Round 14: a keyword slot whose name the caller holds a value for is not given the local the same call hands to that local's own slot (R-FWD/keyword-not-crossed)."
 )
 
+EXPLANATION += (
+    ' Round 15: no in-place store through an alias of an array that is read again (R-ALIAS/edited-through-alias).'
+)
+
 RULE_TEXT = (
     "one obligation per arithmetic relation (quotient, multiplier, "
     "comparison operator, conjunction operand) and per guard; polynomial "
